@@ -10,7 +10,7 @@
 (***************************************************************************)
 EXTENDS FxParams
 
-IntTags == {"i8", "u8", "i16", "u16", "i32", "u32", "i64", "u64"}
+IntTags == {"i8", "u8", "i16", "u16", "i32", "u32", "i64", "u64", "ll", "ull"}    \* ll/ull: (unsigned) long long, distinct types of the same width as int64_t/uint64_t
 (* the integral types of the instance: widths W/8, W/4, W/2, W like 8/16/32/64 of the library *)
 TypeOf(tag) ==
    CASE tag = "i8"  -> [bits |-> W \div 8, signed |-> TRUE]
@@ -21,6 +21,8 @@ TypeOf(tag) ==
      [] tag = "u32" -> [bits |-> W \div 2, signed |-> FALSE]
      [] tag = "i64" -> [bits |-> W, signed |-> TRUE]
      [] tag = "u64" -> [bits |-> W, signed |-> FALSE]
+     [] tag = "ll"  -> [bits |-> W, signed |-> TRUE]
+     [] tag = "ull" -> [bits |-> W, signed |-> FALSE]
 
 ZAbsDiff(a, b) == ZAbs(a -- b)
 Sq(a) == a ** a
